@@ -286,6 +286,71 @@ func registerSig(ex *Explorer) {
 	})
 }
 
+// tendermint secp256k1 keys (A-SIG): public key / address come from the key
+// table registered by the harness, signatures are opaque (key, message) handles.
+func registerTmKeys(ex *Explorer) {
+	const kp = "github.com/tendermint/tendermint/crypto/secp256k1."
+	firstKey := func(c *pathCtx) (string, *keyInfo) {
+		ks := sortedKeys(keyTable(c))
+		if len(ks) == 0 {
+			unsupp("no key registered (zzverif.RegisterKey)")
+		}
+		return ks[0], keyTable(c)[ks[0]]
+	}
+	ex.register(kp+"GenPrivKey", func(fr *frame, args []value) value {
+		h, _ := firstKey(fr.i.ctx)
+		bz, _ := hex.DecodeString(h)
+		return bytesToValues(bz)
+	})
+	lookupPriv := func(c *pathCtx, priv []value) (string, *keyInfo) {
+		bz, ok := concreteBytes(priv)
+		if !ok {
+			unsupp("symbolic private key bytes")
+		}
+		h := hex.EncodeToString(bz)
+		ki := keyTable(c)[h]
+		if ki == nil {
+			unsupp("private key not registered with zzverif.RegisterKey")
+		}
+		return h, ki
+	}
+	ex.register("("+kp+"PrivKey).PubKey", func(fr *frame, args []value) value {
+		_, ki := lookupPriv(fr.i.ctx, args[0].([]value))
+		t := namedType(fr, "github.com/tendermint/tendermint/crypto/secp256k1", "PubKey")
+		return iface{t: t, v: bytesToValues(ki.pub)}
+	})
+	ex.register("("+kp+"PubKey).Address", func(fr *frame, args []value) value {
+		pub, _ := concreteBytes(args[0].([]value))
+		for _, ki := range keyTable(fr.i.ctx) {
+			if string(ki.pub) == string(pub) {
+				return bytesToValues(ki.addr)
+			}
+		}
+		sum := sha256.Sum256(pub)
+		return bytesToValues(sum[:20])
+	})
+	ex.register("("+kp+"PrivKey).Sign", func(fr *frame, args []value) value {
+		h, _ := lookupPriv(fr.i.ctx, args[0].([]value))
+		msg := args[1].([]value)
+		s := &snap{kind: 'S', names: []string{"key", "msg"}, elems: []*snap{{kind: 'T', str: h}, fr.i.snapOf(fr, append([]value{}, msg...), types.NewSlice(types.Typ[types.Uint8]), modeProto, false)}}
+		return tuple{handleBytes(&handle{kind: "tmsig", snap: s}), iface{}}
+	})
+	ex.register("github.com/tendermint/tendermint/libs/os.FileExists", func(fr *frame, args []value) value {
+		m, _ := fr.i.ctx.scratch["files"].(map[string][]value)
+		_, ok := m[args[0].(string)]
+		return ok
+	})
+	ex.register("(*github.com/rigochain/rigo-go/libs.FileIO).Write", func(fr *frame, args []value) value {
+		p := args[0].(*value)
+		path := (*p).(structure)[0].(string)
+		if fr.i.ctx.scratch["files"] == nil {
+			fr.i.ctx.scratch["files"] = map[string][]value{}
+		}
+		fr.i.ctx.scratch["files"].(map[string][]value)[path] = args[1].([]value)
+		return tuple{len(args[1].([]value)), iface{}}
+	})
+}
+
 // newXError builds a types/xerrors.XError value (code ordinary).
 func (i *interpreter) newXError(msg string) value {
 	pkg := i.prog.ImportedPackage("github.com/rigochain/rigo-go/types/xerrors")
@@ -325,6 +390,7 @@ func registerHasher(ex *Explorer) {
 func registerMisc(ex *Explorer) {
 	registerStrings(ex)
 	registerSig(ex)
+	registerTmKeys(ex)
 	registerHasher(ex)
 	registerFilesAndTime(ex)
 	// transaction hash: injective on the identity of the encoded bytes
